@@ -37,7 +37,7 @@ def run(ctx):
                 'undefined, unimplemented-extension rows undefined or NotImplementedError. The witness plus N solver-generated members of '
                 'each region are executed (N=24 quick, 400 thorough), and random words are compared directly (independent of '
                 'the enumeration). For defined rows every reference operand (vf/ref/sem.py decode stage) is compared with the attributes '
-                'of the object from_bitarray returns, under several processor states. Field corners: for every reference row, words in which one field takes a corner value (0, 1, max, max-1, single bits) and the others are random. Running decode: the same word executed twice by one instance (elsewhere and at the same address) with different flags / IT state in between, every step compared with the reference. History independence: one long-lived instance decodes a word in ARM '
+                'of the object from_bitarray returns, under several processor states. Operand paths: the provenance-tracking word is pushed through from_bitarray of the selected class and every branch there is negated in turn (up to 300 / 3000 paths per class-selection path); every path witness is compared. Field corners: for every reference row, words in which one field takes a corner value (0, 1, max, max-1, single bits) and the others are random. Running decode: the same word executed twice by one instance (elsewhere and at the same address) with different flags / IT state in between, every step compared with the reference. History independence: one long-lived instance decodes a word in ARM '
                 'state, the same numeric word in Thumb state and again in ARM state; each answer must equal the stateless decoder. Non-trivial: the reference row is a defined '
                 'instruction; distinct = distinct word.')
     ctx.technique = 'concolic path enumeration as a generator + differential testing against reference encoding tables'
@@ -52,6 +52,7 @@ def run(ctx):
     for k, cn in enumerate(('v5', 'v7', 'v4')):
         tasks += [(chk.corner_shard, ('vf.props.c06:SPEC', i, 8, ctx.shard_seed(700 + 20 * k + i), ctx.n(2, 20), cn)) for i in range(8)]
     tasks += [(_e1p.shard_repeat, ('vf.props.c06:PLAN_REPEAT', ctx.shard_seed(900 + i), ctx.n(150, 3000))) for i in range(8)]
+    tasks += [(chk.operand_path_shard, ('vf.props.c06:SPEC', i, 16, ctx.shard_seed(1000 + i), ctx.n(300, 3000))) for i in range(16)]
     ctx.pmap(_dispatch, tasks)
     ctx.acc.exhaustive = True
     ctx.acc.extra['exhaustive_part'] = 'class selection over all 2^32 words via the joint region partition'
